@@ -1,4 +1,5 @@
 pub mod bits;
+pub mod codec;
 pub mod merkle;
 pub mod sha;
 pub mod tyval;
